@@ -1,6 +1,6 @@
 (* C10 proofs, part 2: LookupKvPairsByPrefix returns a prefix of the listing, with an exact
    "more" flag; iterating next-tokens enumerates the listing exactly once. *)
-From Coq Require Import NArith List Bool Lia ZifyN ZifyNat ZifyBool Sorted Permutation.
+From Coq Require Import NArith Arith List Bool Lia ZifyN ZifyNat ZifyBool Sorted Permutation.
 From Verif.model Require Import Paging PagingSpec.
 From Verif.proofs Require Import PagingBase.
 Import ListNotations.
@@ -398,21 +398,14 @@ Lemma kv_walk_flat : forall prefix cursor deltas,
   kv_walk prefix cursor deltas = fold_left (kv_walk_step prefix cursor) (kv_flat deltas) [].
 Proof. intros. unfold kv_walk, kv_flat. apply fold_left_concat. Qed.
 
-Lemma NoDup_map_filter {A B} (g : A -> B) (f : A -> bool) (l : list A) :
-  NoDup (map g l) -> NoDup (map g (filter f l)).
-Proof.
-  induction l as [|x t IH]; cbn; auto. intro H. inversion H; subst.
-  destruct (f x); cbn; auto. constructor; auto.
-  intro Hin. apply H2. apply in_map_iff in Hin. destruct Hin as [y [Hy Hin]].
-  apply filter_In in Hin. rewrite <- Hy. apply in_map. tauto.
-Qed.
+
 
 Lemma ssorted_map_val {V W} (g : bytes * V -> W) (l : list (bytes * V)) :
   ssorted bltb l -> ssorted bltb (map (fun r => (fst r, g r)) l).
 Proof.
   induction l as [|x t IH]; cbn; intro H; [constructor|].
-  apply ssorted_cons_inv in H. destruct H as [H A]. constructor; auto.
-  rewrite Forall_forall in *. intros y Hy. apply in_map_iff in Hy. destruct Hy as [z [<- Hz]].
+  apply ssorted_cons_inv in H. destruct H as [H A]. constructor; [apply IH; exact H|].
+  apply Forall_forall. intros y Hy. rewrite Forall_forall in A. apply in_map_iff in Hy. destruct Hy as [z [<- Hz]].
   unfold klt. cbn. apply A; auto.
 Qed.
 
@@ -424,7 +417,7 @@ Proof.
   apply in_app_or in Hx. destruct Hx as [Hx|[<-|[]]]; [|apply bltb_irrefl].
   specialize (C x z Hx (or_introl eq_refl)). unfold klt in C.
   destruct (bltb (fst z) (fst x)) eqn:E; auto.
-  rewrite (bltb_trans _ _ _ C E) in *. rewrite bltb_irrefl in *. discriminate.
+  pose proof (bltb_trans _ _ _ C E) as T. rewrite bltb_irrefl in T. discriminate.
 Qed.
 
 (* ------------------------------------------------------------------------------------------ *)
@@ -454,7 +447,7 @@ Section Page.
   Qed.
 
   Lemma rows_sorted : bsorted p_rows.
-  Proof. unfold p_rows. apply isort_ssorted; auto using bltb_irrefl, bltb_trans, bltb_total. apply NoDup_map_filter; auto. Qed.
+  Proof. unfold p_rows. apply isort_ssorted; auto. apply NoDup_map_filter; auto. Qed.
 
   Lemma qs_ge_prefix : bleb prefix p_qs = true.
   Proof.
@@ -553,9 +546,9 @@ Section Page.
     destruct dr_keys as [Hdrq Hdrn].
     (* S is strictly sorted *)
     assert (HSs : bsorted S).
-    { apply isort_ssorted; auto using bltb_irrefl, bltb_trans, bltb_total.
+    { apply isort_ssorted; auto.
       rewrite map_app. apply NoDup_app_disjoint.
-      - apply (ssorted_nodup_keys bltb); auto using bltb_irrefl.
+      - apply ssorted_nodup_keys with (ltb := bltb); auto.
       - apply extra_keys_nodup.
       - intros k Hk1 Hk2. apply in_map_iff in Hk1. destruct Hk1 as [[k1 v1] [E1 H1]]. cbn in E1; subst k1.
         apply in_map_iff in Hk2. destruct Hk2 as [[k2 v2] [E2 H2]]. cbn in E2; subst k2.
@@ -571,7 +564,7 @@ Section Page.
         + split; [apply Q_in_L; rewrite HQ; apply in_or_app; auto|].
           unfold le_cut, cutoff, dbmore. destruct (is_nil rest) eqn:En; cbn; auto.
           destruct (last_opt taken) as [z|] eqn:El; cbn; auto.
-          rewrite (sorted_last_max taken z Hts El _ Ht). destruct (is_nil (fst z)); auto.
+          pose proof (sorted_last_max taken z Hts El _ Ht) as Hmx. cbn [fst] in Hmx. rewrite Hmx. destruct (is_nil (fst z)); auto.
         + apply extra_in in He. destruct He as [val [Hin [-> Hle]]]. split; auto.
           apply kv_listing_in. apply kfind_in_nodup in Hin; auto. rewrite dr_find in Hin.
           destruct (kqual prefix cursor k) eqn:Eq; [|discriminate]. split; auto.
@@ -588,18 +581,24 @@ Section Page.
           destruct rest as [|r0 rest']; [contradiction|]. cbn in Hle.
           specialize (Hne Hrne). destruct (last_opt taken) as [z|] eqn:El.
           * apply last_opt_split in El. destruct El as [l' ->].
-            specialize (Hcross z (k, kv_proj incl v0) (in_or_app _ _ _ (or_intror (or_introl eq_refl))) Hr).
-            unfold klt in Hcross. cbn in Hcross. rewrite Hcross in Hle. cbn in Hle.
-            destruct (fst z); [|discriminate]. destruct k; discriminate.
+            assert (Hz : In z (l' ++ [z])) by (apply in_or_app; right; left; auto).
+            specialize (Hcross z (k, kv_proj incl v0) Hz Hr).
+            unfold klt in Hcross. cbn [fst] in Hcross.
+            destruct z as [kz vz]. cbn [fst] in *.
+            assert (HzQ : In (kz, vz) p_Q) by (rewrite HQ; apply in_or_app; left; exact Hz).
+            apply Q_in in HzQ. destruct HzQ as [vz0 [_ [_ [Hqz _]]]].
+            unfold kqual in Hqz. apply andb_true_iff in Hqz. destruct Hqz as [_ Hcz].
+            destruct kz as [|b0 kz]; [destruct cursor; discriminate|].
+            cbn [is_nil orb] in Hle. rewrite Hcross in Hle. discriminate.
           * apply last_opt_none in El. contradiction. }
     (* cut *)
-    destruct (filter_downclosed bltb bltb_trans (le_cut cutoff) p_L HLs) as [Hsplit Hrest].
+    destruct (filter_downclosed bltb (le_cut cutoff) p_L HLs) as [Hsplit Hrest].
     { intros x y Hxy Hy. unfold le_cut in *. destruct (is_nil cutoff); cbn in *; auto.
       apply negb_true_iff in Hy. apply negb_true_iff.
       destruct (bltb cutoff (fst x)) eqn:E; auto. unfold klt in Hxy.
       rewrite (bltb_trans _ _ _ E Hxy) in Hy. discriminate. }
     assert (HS : S = filter (le_cut cutoff) p_L).
-    { apply (ssorted_unique bltb); auto using bltb_irrefl, bltb_trans.
+    { apply ssorted_unique with (ltb := bltb); auto.
       - apply ssorted_filter; auto.
       - intro x. rewrite Hmem, filter_In. tauto. }
     exists (filter (fun x => negb (le_cut cutoff x)) p_L). rewrite HS. split; [exact Hsplit|]. split.
@@ -610,7 +609,7 @@ Section Page.
         apply filter_In. split; auto. apply negb_true_iff.
         destruct (le_cut cutoff r0) eqn:Ele; auto. exfalso.
         assert (In r0 S) as HinS by (apply Hmem; auto).
-        unfold S in HinS. rewrite isort_in in HinS. apply in_app_or in HinS. destruct HinS as [Ht|He].
+        unfold S in HinS. apply (proj1 (isort_in bltb _ _)) in HinS. apply in_app_or in HinS. destruct HinS as [Ht|He].
         * specialize (Hcross r0 r0 Ht (or_introl eq_refl)). unfold klt in Hcross. rewrite bltb_irrefl in Hcross. discriminate.
         * destruct r0 as [k0 v0]. apply extra_in in He. destruct He as [val [Hin _]].
           apply kfind_in_nodup in Hin; auto.
@@ -618,7 +617,7 @@ Section Page.
           apply Q_in in HinQ. destruct HinQ as [v1 [_ [_ [Hq Hf]]]].
           rewrite dr_find, Hq, Hf in Hin. discriminate.
       + intro HL'. destruct (is_nil rest) eqn:En; auto. exfalso. apply HL'.
-        unfold cutoff, dbmore. rewrite En. cbn.
+        unfold cutoff, dbmore. try rewrite En. cbn.
         clear. induction p_L as [|x t IH]; cbn; auto.
     - intros HLne E. rewrite <- HS in E.
       destruct p_L as [|x0 t0] eqn:EL; [contradiction|].
@@ -628,6 +627,155 @@ Section Page.
         assert (rest <> []) as Hrne by (intro E2; rewrite E2 in En; discriminate).
         specialize (Hne Hrne). destruct taken as [|t1 tk]; [contradiction|].
         assert (In t1 S) as Hin; [|rewrite E in Hin; contradiction].
-        unfold S. rewrite isort_in. apply in_or_app. left. left. auto.
+        unfold S. apply (proj2 (isort_in bltb _ _)). apply in_or_app. left. left. auto.
   Qed.
 End Page.
+
+Theorem kv_page_correct : forall db deltas prefix cursor limit maxBytes incl pe,
+  NoDup (map fst db) -> (forall r, In r db -> bytes_ok (fst r)) -> 1 <= limit ->
+  prefix_end prefix = Some pe ->
+  exists page more rest,
+    kv_page db deltas prefix cursor limit maxBytes incl = Ok (page, more) /\
+    kv_listing db deltas prefix cursor incl = page ++ rest /\
+    (more = true <-> rest <> []) /\
+    (kv_listing db deltas prefix cursor incl <> [] -> page <> []) /\
+    is_prefix page (kv_trim (kv_listing db deltas prefix cursor incl) limit maxBytes).
+Proof.
+  intros db deltas prefix cursor limit maxBytes incl pe Hdb Hok Hlim Hpe.
+  unfold kv_page. assert (limit =? 0 = false) as -> by lia.
+  unfold kv_db_scan. rewrite Hpe. rewrite kv_scan_q.
+  change (qproj cursor (kv_walk prefix cursor deltas) incl _) with (p_Q db deltas prefix cursor incl pe).
+  destruct (scan_q_spec limit maxBytes (p_Q db deltas prefix cursor incl pe) [] 0 0) as [taken [rest [HQ [Hscan Hne]]]].
+  rewrite Hscan. cbn [app].
+  assert (Hne' : rest <> [] -> taken <> []).
+  { intros Hr. apply Hne; auto. rewrite HQ. destruct taken; [cbn; auto | discriminate]. }
+  destruct (merge_char db deltas prefix cursor incl pe Hdb Hok Hpe taken rest HQ Hne') as [L' [HL [Hmore HSne]]].
+  cbv zeta in HL, Hmore, HSne.
+  set (cutoff := if negb (is_nil rest) then match last_opt taken with Some kv => fst kv | None => [] end else []) in *.
+  change (flat_map _ (kv_walk prefix cursor deltas)) with (p_extra deltas prefix cursor incl cutoff).
+  set (S := isort bltb (taken ++ p_extra deltas prefix cursor incl cutoff)) in *.
+  fold (p_L db deltas prefix cursor incl) in *.
+  rewrite kv_trim_ktake.
+  destruct (ktake_is_prefix limit maxBytes S 0 0) as [r1 Hr1].
+  set (page := ktake S 0 0 limit maxBytes) in *.
+  exists page, (if Nat.ltb (length page) (length S) then true else negb (is_nil rest)), (r1 ++ L').
+  split; [reflexivity|]. split; [rewrite HL, Hr1 at 1; rewrite app_assoc; reflexivity|]. split; [|split].
+  - assert (Hlen : length S = (length page + length r1)%nat) by (rewrite Hr1 at 1; apply app_length).
+    destruct (Nat.ltb (length page) (length S)) eqn:E.
+    + apply Nat.ltb_lt in E. split; auto. intros _ C. apply app_eq_nil in C. destruct C as [C _]. subst r1. cbn in Hlen. lia.
+    + apply Nat.ltb_ge in E. assert (r1 = []) as -> by (destruct r1; auto; cbn in Hlen; lia). cbn. exact Hmore.
+  - intros HLne. apply ktake_nonempty. apply HSne; auto.
+  - rewrite kv_trim_ktake, HL. apply ktake_prefix.
+Qed.
+
+(* with the round arithmetic of accountUpdates.LookupKvPairsByPrefix *)
+Theorem kv_lookup_correct : forall db dbRound deltas rnd prefix cursor limit maxBytes incl pe,
+  NoDup (map fst db) -> (forall r, In r db -> bytes_ok (fst r)) -> 1 <= limit ->
+  prefix_end prefix = Some pe -> dbRound <= rnd -> rnd - dbRound <= nlen deltas ->
+  let world := firstn (N.to_nat (rnd - dbRound)) deltas in
+  exists page more rest,
+    kv_lookup db dbRound deltas rnd prefix cursor limit maxBytes incl = Ok (page, more) /\
+    kv_listing db world prefix cursor incl = page ++ rest /\
+    (more = true <-> rest <> []) /\
+    (kv_listing db world prefix cursor incl <> [] -> page <> []) /\
+    is_prefix page (kv_trim (kv_listing db world prefix cursor incl) limit maxBytes).
+Proof.
+  intros. unfold kv_lookup.
+  assert (limit =? 0 = false) as -> by lia.
+  assert (rnd <? dbRound = false) as -> by lia.
+  assert (nlen deltas <? rnd - dbRound = false) as -> by lia.
+  eapply kv_page_correct; eauto.
+Qed.
+
+(* ------------------------------------------------------------------------------------------ *)
+(* iterating next-tokens                                                                      *)
+(* ------------------------------------------------------------------------------------------ *)
+Lemma kv_listing_suffix : forall db deltas prefix cursor incl c',
+  bltb cursor c' = true ->
+  kv_listing db deltas prefix c' incl =
+  filter (fun x => bltb c' (fst x)) (kv_listing db deltas prefix cursor incl).
+Proof.
+  intros. apply ssorted_unique with (ltb := bltb); auto.
+  - apply kv_listing_sorted.
+  - apply ssorted_filter, kv_listing_sorted.
+  - intros [k v]. rewrite filter_In, !kv_listing_in. cbn [fst]. unfold kqual.
+    split.
+    + intros [Hq Hw]. apply andb_true_iff in Hq. destruct Hq as [Hp Hc]. repeat split; auto.
+      rewrite Hp. cbn. eapply bltb_trans; eauto.
+    + intros [[Hq Hw] Hc]. apply andb_true_iff in Hq. destruct Hq as [Hp _]. rewrite Hp, Hc. auto.
+Qed.
+
+Theorem kv_iter_exact : forall db dbRound deltas rnd prefix limit maxBytes incl pe,
+  NoDup (map fst db) -> (forall r, In r db -> bytes_ok (fst r)) -> 1 <= limit ->
+  prefix_end prefix = Some pe -> dbRound <= rnd -> rnd - dbRound <= nlen deltas ->
+  let world := firstn (N.to_nat (rnd - dbRound)) deltas in
+  let pagef := fun c => kv_lookup db dbRound deltas rnd prefix c limit maxBytes incl in
+  forall fuel cursor, (length (kv_listing db world prefix cursor incl) < fuel)%nat ->
+  exists ps, kv_iter fuel pagef cursor = (map Ok ps, false) /\
+             kv_pages_shape ps = true /\
+             List.concat (map fst ps) = kv_listing db world prefix cursor incl.
+Proof.
+  intros db dbRound deltas rnd prefix limit maxBytes incl pe Hdb Hok Hlim Hpe Hr1 Hr2 world pagef.
+  induction fuel as [|f IH]; intros cursor Hf; [lia|].
+  cbn [kv_iter]. unfold pagef at 1.
+  destruct (kv_lookup_correct db dbRound deltas rnd prefix cursor limit maxBytes incl pe Hdb Hok Hlim Hpe Hr1 Hr2)
+    as [page [more [rest [Hpg [HL [Hmore [Hne _]]]]]]].
+  fold world in HL, Hne. rewrite Hpg.
+  destruct more.
+  - assert (rest <> []) as Hrest by (apply Hmore; auto).
+    assert (page <> []) as Hpage by (apply Hne; rewrite HL; destruct page; [destruct rest; [contradiction|discriminate] | discriminate]).
+    destruct (last_opt page) as [kv|] eqn:El; [|apply last_opt_none in El; contradiction].
+    destruct (last_opt_split _ _ El) as [p' Hp'].
+    assert (HinL : In kv (kv_listing db world prefix cursor incl)).
+    { rewrite HL, Hp'. apply in_or_app. left. apply in_or_app. right. left. auto. }
+    destruct kv as [kk kvv]. pose proof HinL as HinL2. apply kv_listing_in in HinL2. destruct HinL2 as [Hq _].
+    unfold kqual in Hq. apply andb_true_iff in Hq. destruct Hq as [_ Hc].
+    assert (Hnext : kv_listing db world prefix kk incl = rest).
+    { rewrite (kv_listing_suffix db world prefix cursor incl kk Hc). rewrite HL, Hp'.
+      rewrite <- app_assoc. cbn [app fst].
+      apply (ssorted_above_last bltb b_ord p' (kk, kvv) rest).
+      pose proof (kv_listing_sorted db world prefix cursor incl) as Hs. rewrite HL, Hp', <- app_assoc in Hs. exact Hs. }
+    cbn [fst].
+    destruct (IH kk) as [ps [Hit [Hsh Hcat]]].
+    { rewrite Hnext. rewrite HL, app_length in Hf. destruct page; [contradiction|]. cbn in Hf. lia. }
+    rewrite Hit. exists ((page, true) :: ps). split; [reflexivity|]. split.
+    + cbn [kv_pages_shape]. destruct ps as [|p0 ps']; [cbn in Hsh; discriminate|].
+      destruct page; [contradiction|]. cbn. exact Hsh.
+    + cbn. rewrite Hcat, Hnext. auto.
+  - assert (rest = []) as ->.
+    { destruct rest; auto. assert (false = true) by (apply Hmore; discriminate). discriminate. }
+    exists [(page, false)]. split; [reflexivity|]. split; [reflexivity|]. cbn. rewrite HL, !app_nil_r. auto.
+Qed.
+
+Lemma kvrows_eqb_eq : forall a b, kvrows_eqb a b = true <-> a = b.
+Proof.
+  induction a as [|[k v] a IH]; destruct b as [|[k' v'] b]; cbn; split; intro H; auto; try discriminate.
+  - apply andb_true_iff in H. destruct H as [H H3]. apply andb_true_iff in H. destruct H as [H1 H2].
+    apply beqb_eq in H1, H2. apply IH in H3. subst. auto.
+  - inversion H; subst. rewrite !beqb_refl. cbn. apply IH. auto.
+Qed.
+
+Lemma prefix_end_range : forall p e k, prefix_end p = Some e -> bytes_ok k ->
+  bleb p k && bltb k e = has_prefix p k.
+Proof. intros p e k H. rewrite prefix_end_pend in H. apply prefix_range; auto. Qed.
+
+Lemma prefix_end_none : forall p, prefix_end p = None <-> Forall (fun b => 255 <= b) p.
+Proof.
+  intro p. rewrite prefix_end_pend. induction p as [|b t IH]; cbn.
+  - split; auto.
+  - destruct (pend t).
+    + split; [discriminate|]. intro H. inversion H; subst. apply IH in H3. discriminate.
+    + destruct (255 <? b + 1) eqn:E.
+      * split; auto. intros _. constructor; [lia | apply IH; auto].
+      * split; [discriminate|]. intro H. inversion H; subst. lia.
+Qed.
+
+Lemma kv_listing_spec : forall db deltas prefix cursor incl,
+  ssorted bltb (kv_listing db deltas prefix cursor incl) /\
+  forall k v, In (k, v) (kv_listing db deltas prefix cursor incl) <->
+    has_prefix prefix k = true /\ bltb cursor k = true /\
+    exists v0, kv_world db deltas k = Some v0 /\ v = kv_proj incl v0.
+Proof.
+  intros. split; [apply kv_listing_sorted|]. intros k v. rewrite kv_listing_in. unfold kqual.
+  rewrite andb_true_iff. tauto.
+Qed.
